@@ -372,3 +372,24 @@ def run(ck, facts):
                            ("prim", A.t_prim(), True), ("named:S", A.t_named("S"), True), ("ref(named:Q)", A.t_ref(A.t_named("Q")), True), ("result", A.t_res(A.t_prim(), A.T_UNIT), False), ("unit", A.T_UNIT, False), ("ordering", A.T_ORD, False)):
         vals = {o.val for o in I.call("ast::types::TypeName::is_ffi_safe", [pv])}
         ck.expect(vals == {A.B(want)}, "R6", "is_ffi_safe/" + name, str(want), "is_ffi_safe(%s) = %s, documented %s" % (name, sorted(A.show(v) for v in vals), want), None)
+
+    # ---------------- R3 (cont.) the macro's early struct-field check runs for every by-value struct (only opaque structs are exempt)
+    mac = facts.macro
+    gb = mac.fn("gen_bridge")
+    sites = []
+    for n, st in C.with_conditions(C.fn_body(gb)):
+        if n.get("k") == "macro" and n.get("name") == "panic" and "non-FFI safe type inside struct" in n.get("src", ""):
+            flags = set()
+            for kind, a, b in st:
+                if kind == "if":
+                    for y in C.walk(a):
+                        if y.get("k") == "field" and C.strip(y.get("e") or {}).get("n") == "info":
+                            flags.add(("!" if b == "t" and any(z.get("k") in ("un", "unary") and z.get("op") == "Not" for z in C.walk(a)) else "") + y["n"])
+            sites.append(sorted(flags))
+    ck.expect(sites == [["!opaque"]], "R3", "macro::gen_bridge/struct-field-check-guard", str(sites),
+              "the macro's `Found non-FFI safe type inside struct` check runs under %s (expected: for every non-opaque struct): structs with e.g. their own #[repr] skip it, "
+              "so macro and tool disagree on which field types are accepted" % sites, C.loc(gb))
+    # the elision / implied-bound validation sees every lifetime of a type, also behind Option (rules of C04 on Type::lifetimes and extend_implicit_lifetime_bounds)
+    import c04
+    sub = C.SubCheck(ck, "R4", "", ["R2", "R3"], key_re=r"Type::lifetimes/carriers|recurses-into|extend_implicit")
+    c04.run(sub, facts)
